@@ -1,10 +1,10 @@
 SPECIFICATION Spec
 CONSTANTS
-  G = 2
+  G = 3
   MaxRings = 2
   Drawings = 1
-  Kinds = {"rect", "tri", "dia", "rectD"}
-  MutSeq <- MutThmQ
+  Kinds = {"rect", "dia", "L", "rectD"}
+  MutSeq <- MutThm
   Modes = {"any"}
   MaxSegs = 26
   Styles = {}
